@@ -1,5 +1,41 @@
 import DFV.Drv.C13
+import DFV.DrvLoop
+import DFV.Model.C12Ctor
 namespace DFV.Drv
-/-- C12 shares the transformation driver of C13 -/
-def c12 := c13
+open Lean DFV DFV.T
+
+/-- `null | [[label, axis | null], ..]` : the `vdim_mapping` argument (a dict whose values may be None) -/
+def optMapOfJson (j : Json) (k : String) : R (Option (List (String × Option String))) :=
+  match fldOpt j k with
+  | none => pure none
+  | some v => some <$> listOf (fun e => do
+      let a ← arr e
+      match a.toList with
+      | [x, y] =>
+        let tgt ← match y with
+          | .null => pure none
+          | _ => some <$> strOfJson y
+        pure (← strOfJson x, tgt)
+      | _ => throw "pair expected") v
+
+def c12own (op : String) (j : Json) : Option (R Json) :=
+  match op with
+  | "field_ctor" => some do
+      -- Field(mesh, nvdim, value=array, valid=array, vdims=…, vdim_mapping=…, unit=…)
+      let mesh ← meshOfJson (← fld j "mesh")
+      let nvdim ← natOfJson (← fld j "nvdim")
+      let shape ← nats j "shape"
+      let cells ← listOf (listOf ratOfJson) (← fld j "data")
+      if cells.length ≠ natProd shape then throw "value length"
+      let vshape ← nats j "vshape"
+      let valid ← listOf boolOfJson (← fld j "valid")
+      if valid.length ≠ natProd vshape then throw "valid length"
+      let vdims ← optStrsOfJson j "vdims"
+      let vmap ← optMapOfJson j "vmap"
+      let unit ← optStrOfJson j "unit"
+      pure (resJ fldToJson (mkFld? mesh nvdim (NDA.ofList shape cells []) (NDA.ofList vshape valid false) vdims vmap unit))
+  | _ => none
+
+/-- C12 = transformation driver of C13 + the field constructor -/
+def c12 := orElseH [c13, c12own]
 end DFV.Drv
